@@ -9,7 +9,7 @@ JOBS    ?= 16
 
 CXX     := c++
 DEFS    := -DUSCXML_EXPORT -DXERCESC_NS=xercesc_3_2 -DUSCXML_VERIF
-INCS    := -I$(REPO)/src -I$(REPO)/contrib/src -I$(HOOKS) -I$(REPO)/contrib/src/jsmn \
+INCS    := -I$(REPO) -I$(REPO)/src -I$(REPO)/contrib/src -I$(HOOKS) -I$(REPO)/contrib/src/jsmn \
            -I$(REPO)/contrib/src/evws -I$(REPO)/contrib/src/uriparser/include \
            -I/usr/include/lua5.3 -I$(REPO)/contrib/src/LuaBridge
 CXXFLAGS := -std=gnu++11 -O1 -g -Wno-deprecated-declarations $(DEFS) $(INCS)
